@@ -416,6 +416,36 @@ def gen_move(rng, idx):
                            kinds=sorted(kinds) or ["single-carrier"])
 
 
+def gen_move_long(rng, idx, gap_ms=95000):
+    """one session whose only carrier is cut in mid-transfer; NO carrier for longer than retention + sweep period (really
+    waited for: thorough tier only); then a new carrier re-sends everything. The client map has forgotten the session
+    (its queued downstream packets are gone) but kcp-go's session table has not: still ONE accepted connection whose
+    stream continues — which is what the model's listener view says."""
+    cid = "%016x" % rng.getrandbits(64)
+    conv = rng.getrandbits(32)
+    app = bytes([idx & 255]) + bytes(rng.randrange(256) for _ in range(300))
+    stream = smux_frame(0, 3) + b"".join(smux_frame(2, 3, app[i:i + 50]) for i in range(0, len(app), 50))
+    segs = [kcp_seg(conv, k, stream[i:i + 40]) for k, i in enumerate(range(0, len(stream), 40))]
+    half = len(segs) // 2
+    ops, mops = ["n", "r0:x" + TOKEN + cid], ["n", "r0:x%s:0" % (TOKEN + cid)]
+    now = 1
+    for s in segs[:half]:
+        h = prefix(len(s)) + s.hex()
+        ops.append("r0:x" + h); mops.append("r0:x%s:%d" % (h, now))
+        now += 1
+    ops[-1] += "@a1"
+    ops += ["c0", "g%d" % gap_ms]
+    mops += ["c0"] + ["v%d" % (now + k) for k in range(30000, gap_ms + 1, 30000)]
+    now += gap_ms
+    ops += ["n", "r1:x" + TOKEN + cid]; mops += ["n", "r1:x%s:%d" % (TOKEN + cid, now)]
+    for s in segs:
+        h = prefix(len(s)) + s.hex()
+        ops.append("r1:x" + h); mops.append("r1:x%s:%d" % (h, now))
+        now += 1
+    ops.append("z@a1@t%d" % len(app))
+    return ops, mops, dict(sessions=[dict(cid=cid, conv=conv, app=app.hex(), ncarriers=2)], kinds=["gap-beyond-retention"])
+
+
 def check_move(meta, d, md):
     """the property on the implementation's answer (d) and the comparison with the model's listener view (md)"""
     bad = []
@@ -587,19 +617,33 @@ def run(ctx):
     TMO = 2000
     expiry = [gen_expiry(ctx.rng, i, TMO) for i in range(3 if quick else 16)]
     moves = [gen_move(ctx.rng, i) for i in range(40 if quick else 400)]
-    lines = ["carrierlayer run " + ",".join(ops) for ops, _, _ in scen]
-    lines += ["carrierlayer trun %d %s" % (RETENTION, ",".join(sc[0])) for sc, _ in timed]
+    if not quick:
+        # the real one-minute retention, really exceeded (95 s without a carrier): first in the list so that it overlaps the rest
+        moves = [gen_move_long(ctx.rng, i) for i in range(2)] + moves
+    mlines = ["carrierlayer run " + ",".join(mops) for _, mops, _ in scen]
+    mlines += ["carrierlayer trun %d %s" % (RETENTION, ",".join(tm)) for _, tm in timed]
+    mlines += ["carrierlayer trun %d %s" % (TMO, ",".join(mops)) for _, mops, _ in expiry]
+    mlines += ["carrierlayer trun %d %s" % (RETENTION, ",".join(mops)) for _, mops, _ in moves]
+    mout = vlib.run_model(mlines)
+
+    def wait_for_closes(ops, mo, ncar):
+        # the driver waits (bounded) until every carrier the model says the server closed has been closed and as many upstream
+        # packets have surfaced as the model says (random bytes on a carrier can contain whole chunks), so that an effect
+        # that is late on a loaded machine is not taken for a disagreement
+        md = parse_impl(mo)
+        dead = [i for i in range(ncar) if md.get("k%d" % i, "").startswith("dead")]
+        nup = 0 if md.get("up", "-") == "-" else len(md["up"].split(","))
+        return ops + ["z@u%d" % nup + "".join("@k%d" % i for i in dead)]
+
+    lines = ["carrierlayer run " + ",".join(wait_for_closes(ops, mo, len(meta["carriers"]))) for (ops, _, meta), mo in zip(scen, mout)]
+    lines += ["carrierlayer trun %d %s" % (RETENTION, ",".join(wait_for_closes(sc[0], mo, len(sc[2]["carriers"]))))
+              for (sc, _), mo in zip(timed, mout[len(scen):])]
     lines += ["carrierlayer trun %d %s" % (TMO, ",".join(ops)) for ops, _, _ in expiry]
     lines += ["carrierlayer move " + ",".join(ops) for ops, _, _ in moves]
     rc, out, err = vlib.run_impl(exe, lines, args=["-test.run", "^TestVerifC05Driver$"], env=env, timeout=1800)
     if rc != 0 or len(out) != len(lines):
         ctx.violation("driver-crash", "server carrier driver died rc=%s: %s" % (rc, err[-800:]), dict(stderr=err[-3000:]))
         return
-    mlines = ["carrierlayer run " + ",".join(mops) for _, mops, _ in scen]
-    mlines += ["carrierlayer trun %d %s" % (RETENTION, ",".join(tm)) for _, tm in timed]
-    mlines += ["carrierlayer trun %d %s" % (TMO, ",".join(mops)) for _, mops, _ in expiry]
-    mlines += ["carrierlayer trun %d %s" % (RETENTION, ",".join(mops)) for _, mops, _ in moves]
-    mout = vlib.run_model(mlines)
     pos = 0
     # ---- untimed scenarios
     for (ops, mops, meta), line, o, ml, mo in zip(scen, lines, out, mlines, mout):
